@@ -200,6 +200,7 @@ package keeper
 //@   ensures position: err == nil ==> has(farmers, bech(sender), poolId) && FARMER(bech(sender), poolId).Locked == fi.Locked
 //@                       && FARMER(bech(sender), poolId).PoolId == poolId && FARMER(bech(sender), poolId).Address == bech(sender)
 //@                       && (forall d:Str :: amt(FARMER(bech(sender), poolId).RewardDebt, d) == ite(has(ruleF, poolId, d), debtOf(RULE(poolId, d), fi.Locked), 0))
+//@   by paid: CaclRewards, payRewards, updatePool.rules_list, updatePool.rules_complete, updatePool.by_denom, updatePool.ledger, uses, req
 //@   ensures farmers_frame: forall a:Str :: forall p:Str :: (a != bech(sender) || p != poolId) ==> has(farmers, a, p) == old(has(farmers, a, p)) && FARMER(a, p) == old(FARMER(a, p))
 //@   ensures ledger:   err == nil ==> (forall d:Str :: bal(MOD, d) == old(bal(MOD, d)) - relD(pl, d)
 //@                       && bal(COLLECTOR, d) == old(bal(COLLECTOR, d)) + relD(pl, d) - amt(reward, d)
